@@ -16,13 +16,17 @@ import (
 // components to be visited, an index into that adjacency slice, the bitmap of
 // components reachable from this component (including itself), and a pointer to
 // the cursor of its parent component (used to roll up reachability when the
-// DFS backtracks).
+// DFS backtracks). The partial flag marks a cursor whose reach bitmap may be
+// missing components: one of its descendants was skipped because the DFS had
+// already visited it on behalf of a different cursor, so that descendant's
+// reach was rolled up elsewhere and not into this cursor.
 type reachCursor struct {
 	component   uint64
 	adjacent    []uint64
 	adjacentIdx int
 	reach       cardinality.Duplex[uint64]
 	ancestor    *reachCursor
+	partial     bool
 }
 
 // Complete merges the reach bitmap of this cursor into its ancestor’s bitmap.
@@ -31,6 +35,11 @@ type reachCursor struct {
 func (s *reachCursor) Complete() {
 	if s.ancestor != nil {
 		s.ancestor.reach.Or(s.reach)
+
+		// An ancestor of a partial cursor is missing the same components
+		if s.partial {
+			s.ancestor.partial = true
+		}
 	}
 }
 
@@ -225,8 +234,12 @@ func (s *ReachabilityCache) componentReachDFS(component uint64, direction graph.
 			// Complete the cursor to roll up reach cardinalities
 			nextCursor.Complete()
 
-			// Update the cache with this component's reach
-			s.cacheComponentReach(nextCursor, direction)
+			// Update the cache with this component's reach. The root cursor's reach doubles as
+			// the visited set of the whole traversal and is therefore always complete. Any other
+			// cursor may only be cached if none of its descendants were skipped.
+			if nextCursor == rootCursor || !nextCursor.partial {
+				s.cacheComponentReach(nextCursor, direction)
+			}
 		} else if rootCursor.reach.CheckedAdd(nextAdjacentComponent) {
 			// This is a component not yet visited, check if it is cached. If it
 			// is cached, Or(...) its reach and if not traverse into it.
@@ -234,6 +247,15 @@ func (s *ReachabilityCache) componentReachDFS(component uint64, direction graph.
 				nextCursor.reach.Or(cachedReach)
 			} else {
 				stack.PushBack(s.newReachCursor(nextAdjacentComponent, direction, nextCursor))
+			}
+		} else if nextCursor != rootCursor {
+			// The adjacent component was already visited through a different cursor. Its reach is
+			// accounted for in the root cursor but was never merged into this cursor. Recover it
+			// from the cache if it is still there, otherwise this cursor can not be cached.
+			if cachedReach, cached := s.cachedComponentReach(nextAdjacentComponent, direction); cached {
+				nextCursor.reach.Or(cachedReach)
+			} else {
+				nextCursor.partial = true
 			}
 		}
 	}
